@@ -462,7 +462,7 @@ func testConfig(root string) *cfg.Config {
 	c.P2P.PeerExchange = false
 	c.Consensus.CreateEmptyBlocks = false
 	c.Consensus.CreateEmptyBlocksInterval = 0
-	c.Consensus.TimeoutPropose = 400 * time.Millisecond
+	c.Consensus.TimeoutPropose = 2 * time.Second
 	c.Consensus.TimeoutPrevote = 10 * time.Millisecond
 	c.Consensus.TimeoutPrecommit = 10 * time.Millisecond
 	c.Consensus.TimeoutCommit = 1 * time.Millisecond
@@ -568,6 +568,10 @@ func classify(s string) string {
 		return "no-seen-commit"
 	case strings.Contains(s, "block not found") || strings.Contains(s, "block meta not found"):
 		return "no-block"
+	case strings.Contains(s, "Could not find results for height"):
+		return "no-abci-responses"
+	case strings.Contains(s, "Wrong Block.Header.AppHash"):
+		return "invalid-block"
 	case strings.Contains(s, "is higher than core") || strings.Contains(s, "AppBlockHeightTooHigh") || strings.Contains(s, "app block height"):
 		return "app-ahead"
 	}
@@ -635,6 +639,7 @@ func (b *boot) drive(script [][]byte, patience time.Duration, until func() bool)
 	lastH := int64(-1)
 	submitted := -1
 	subAt := int64(0)
+	refusedSeen := false
 	for {
 		if until != nil && until() {
 			return true
@@ -659,6 +664,13 @@ func (b *boot) drive(script [][]byte, patience time.Duration, until func() bool)
 		}
 		if time.Now().After(deadline) {
 			return false
+		}
+		if !refusedSeen && b.logs.has("Error signing vote") {
+			// a single validator that cannot sign its own vote never leaves the round: no need to wait long
+			refusedSeen = true
+			if d := time.Now().Add(patience / 5); d.Before(deadline) {
+				deadline = d
+			}
 		}
 		time.Sleep(2 * time.Millisecond)
 	}
